@@ -142,7 +142,7 @@ type lblWorld struct {
 	nestedLabels  []string
 	nestedCount   int
 	mu            sync.Mutex
-	during      []lblOp
+	during        []lblOp
 }
 
 func newLblWorld(c *Case, st *lblStructure) *lblWorld {
